@@ -17,6 +17,7 @@
       (one Proactor, small ring, all jobs pushed without polling; the completion channel is unbounded in the model)
     busyfd <limit> <timeout_ms> <u|p> <script>   results while an fd is ready on every poll -> conc totals
     collect <limit> <timeout_ms> <u|p> <pop|popx|cancel|submit|submitx|spawnb> <v|e|p> <tag>  -> got value | got error | got unwind c17-payload-<tag>
+    cfg <new|lt|tl|reuse|forcelt|forcetl> <1|2|256|max> <0|1ns|1ms|1s|half|max> <u|p>  -> cfg ok jobs=<n> extra=<held|none>
     parked <limit> <timeout_ms> <u|p> <hold_ms> <poll_timeout_ms>   shared pool held by a foreign dispatcher -> conc value=<limit+1> ..
 -/
 import Compio.Model.Common
@@ -232,6 +233,30 @@ def step (m : Mode) (line : String) : Mode × String :=
         | .error _ => (m, "got error")
         | .unwind p => (m, s!"got unwind c17-payload-{p}")
       | none => (m, "bad-op")
+    | _, _ => (m, "bad-op")
+  | ["cfg", _via, lim, tmo, _drv], _ =>
+    let limit? : Option Nat := match lim with
+      | "1" => some 1 | "2" => some 2 | "256" => some 256 | "max" => some (2 ^ 64 - 1) | _ => none
+    let tmo? : Option Nat := match tmo with
+      | "0" => some 0 | "1ns" => some 1 | "1ms" => some 1000000 | "1s" => some 1000000000
+      | "half" => some ((2 ^ 64 - 1) / 2 * 1000000000) | "max" => some ((2 ^ 64 - 1) * 1000000000 + 999999999)
+      | _ => none
+    match limit?, tmo? with
+    | some limit, some tmo =>
+      -- the new worker reaches `recv` whatever the timeout is (checked deadline), so the forced schedule runs
+      match workerPrologue 1000000000 tmo with
+      | .panic => (m, "cfg ok jobs=0 extra=none")
+      | .enterRecv _ =>
+        let n := min limit 3
+        let extra := decide (limit ≤ 2)
+        -- n gated jobs are accepted one by one; the extra one is refused while they run
+        let s0 := init limit 1 false
+        let (s1, _) := (List.range n).foldl (fun (acc : State × Nat) _ => ((detDisp acc.1 .value).1, acc.2)) (s0, 0)
+        let (s2, o) := if extra then detDisp s1 .value else (s1, "")
+        let held := if extra then (if o.startsWith "busy" then "held" else "ran") else "none"
+        let started := running s2
+        let total := started + (if extra && held == "held" then 1 else 0)
+        (m, s!"cfg ok jobs={total} extra={held}")
     | _, _ => (m, "bad-op")
   | ["hist", l], _ =>
     match l.toNat? with
